@@ -27,6 +27,9 @@ type SOp struct {
 	// FailMut: the k-th mutating disk operation of this store operation fails with EIO
 	// (OCI layout, C08); 0 = no disk fault
 	FailMut int `json:"fail_mut,omitempty"`
+	// FailOp (C09, GC only): the k-th disk operation of any kind - reads, stats and listings
+	// included - fails with EIO
+	FailOp int `json:"fail_op,omitempty"`
 }
 
 func (o SOp) String() string {
